@@ -172,6 +172,9 @@ func (s *c22Sim) handoffTargetReached() bool {
 	for i := range s.svcErr {
 		dead[i] = true
 	}
+	for i := range s.crashed {
+		dead[i] = true
+	}
 	s.mu.Unlock()
 	s.hand.mu.Lock()
 	defer s.hand.mu.Unlock()
